@@ -403,10 +403,12 @@ impl LuaEngine {
                     return Ok(RespFrame::error(msg.as_bytes().to_vec()));
                 }
                 
-                // Convert Lua table to Redis array
+                // Convert Lua table to Redis array: the elements 1, 2 ... up to the first nil,
+                // read raw. A metatable has no say in the reply (an __index that never
+                // answers nil made this loop endless)
                 let mut items = Vec::new();
                 for i in 1.. {
-                    match table.get::<LuaValue>(i) {
+                    match table.raw_get::<LuaValue>(i) {
                         Ok(LuaValue::Nil) => break,
                         Ok(value) => items.push(self.lua_value_to_resp(value, depth + 1)?),
                         Err(_) => break,
